@@ -22,12 +22,12 @@ import (
 func init() {
 	SelfTests = append(SelfTests, aead.SelfTest)
 	register(&Prop{
-		ID:    "C04",
-		Level: "exploration",
-		Nodes: func(tier string) []string { return []string{"avx2", "avx", "sse", "noclmul", "noaes", "purego"} },
-		Cross: true,
-		Gen:   genC04,
-		Exec:  execC04,
+		ID:        "C04",
+		Level:     "exploration",
+		Nodes:     func(tier string) []string { return []string{"avx2", "avx", "sse", "noclmul", "noaes", "purego"} },
+		Cross:     true,
+		Gen:       genC04,
+		Exec:      execC04,
 		QuickSecs: 25, ThoroughSecs: 600, RunsPerJob: 300,
 		Rule: "a run fixes (GCM or CCM, nonce size, tag size, key, code path: real sm4 block or Block-only wrapper) and plays {seal(plaintext length, AAD length, dst prefix / in place / spare capacity / guard page)} followed by deliveries {open untouched, open with one altered byte at a chosen field and offset, exhaustive single-byte alteration of every position of nonce|AAD|ciphertext|tag, truncation, extension, tag/nonce/AAD/ciphertext swapped in from another record}; GCM nonces include crafted 16-byte nonces whose derived 32-bit counter wraps; " +
 			"abstract history = (kind, nonce size, tag size, path) + sequence of (op kind, plaintext/AAD length classes mod 16/64/128, knob, altered field); non-trivial = at least one seal and one delivery; distinct = distinct abstract histories",
